@@ -244,6 +244,25 @@ def run(ctx):
         if got != want:
             ctx.spec_fail('sub|wrong-cells', 'sub does not apply re.sub(pattern, repl) to the cells of the field (and to nothing else)',
                           {'table': repr(T), 'pattern': pat, 'repl': repr(repl), 'count': count, 'flags': int(flags), 'real': got, 'want': want})
+    # ---- rename: all entries of a spec refer to the header as it was (swaps and chains included), by dict and by item assignment
+    for ci in range(60 if ctx.thorough() else 20):
+        hdr = ['foo', 'bar', 'baz']
+        T = [hdr] + [[1, 2, 3]]
+        spec = rng.choice([{'foo': 'bar', 'bar': 'foo'}, {'foo': 'bar', 'bar': 'baz', 'baz': 'foo'}, {'foo': 'bar', 'bar': 'qux'}, {0: 'bar', 'bar': 'foo'},
+                           {'bar': 'foo', 'foo': 'bar'}, {'baz': 'foo', 'foo': 'zap'}])
+        want = tuple(spec.get(h, spec.get(i, h)) for i, h in enumerate(hdr))
+        v1 = etl.rename(T, spec)
+        v2 = etl.rename(T)
+        for k_, n_ in spec.items():
+            v2[k_] = n_
+        for form, v in (('dict', v1), ('item assignment', v2)):
+            got = util.run_show(lambda: v)
+            exp = util.show_out([want, (1, 2, 3)])
+            ctx.case(('rename-swap', form, repr(spec)))
+            ctx.count('op:rename(swap/chain)')
+            if got != exp:
+                ctx.spec_fail('rename|swap-or-chain', 'rename with a spec whose new names are other entries\' old names does not rename every field from the original header',
+                              {'header': repr(hdr), 'spec': repr(spec), 'form': form, 'real': got, 'want': exp})
     # ---- update(table, field, value): the value is stored as it is, whatever kind of object it is
     class _Callable(object):
         def __call__(self, *a):
